@@ -714,8 +714,29 @@ fn construct(src: &str) -> &'static str {
     if lines.iter().any(|l| l.contains(", ") || l.ends_with(',')) && !has("\"") {
         return "empty-ascii-subscript";
     }
-    if has(";") && !has("\"") && !has("@;") {
-        return "unsplit-marker";
+    {
+        // code only: string and character literals removed
+        let mut code = String::new();
+        let mut in_str = false;
+        let mut chars = src.chars().peekable();
+        while let Some(c) = chars.next() {
+            if in_str {
+                if c == '\\' {
+                    chars.next();
+                } else if c == '"' || c == '\n' {
+                    in_str = false;
+                }
+            } else if c == '"' {
+                in_str = true;
+            } else if c == '@' {
+                chars.next();
+            } else {
+                code.push(c);
+            }
+        }
+        if code.contains(';') {
+            return if code.contains('#') { "unsplit-marker-comment" } else { "unsplit-marker" };
+        }
     }
     if has("$$") {
         return "multiline-format-string";
@@ -1564,6 +1585,12 @@ fn gen_program(r: &mut Rng) -> (String, Vec<&'static str>) {
 
 /// hand-written seeds: earlier counterexamples and the constructs of the property's quantifier
 const SEEDS: &[&str] = &[
+    // open: a line ending in the ; marker followed by a comment line: the code ends up inside the comment
+    "X ← 3\nF ← (\n  X ;\n  # c\n  Y\n)\nF\n",
+    "X←3\nF←(\nX;\n#\n)\nF",
+    // open: a binding whose lines are joined is aligned with its neighbours only on the second pass
+    "XY ← 1\nG ← (2\n;3)\n",
+    "XY←\nG←(;\n)",
     // number literals with exponent signs, fractions, signs in both components; lone negative subscripts
     "1e¯2/3\n",
     "1e`2/3 1e-2/3\n",
@@ -2326,7 +2353,7 @@ impl<'a> TG<'a> {
                 v
             }
             13 => vec![MTok::Upper(self.r.pick(&UPPERS).to_string(), 1 + self.r.below(2))],
-            14 if self.first_is_glyph && !self.toks.is_empty() => vec![MTok::Eq],
+            14 if self.eq_allowed() => vec![MTok::Eq],
             15 | 16 => {
                 // strand of atoms
                 let n = 2 + self.r.below(2);
@@ -2344,6 +2371,43 @@ impl<'a> TG<'a> {
     }
     fn space(&mut self) -> MTok {
         MTok::Space(self.r.chance(1, 3))
+    }
+    /// "Name = …" at the start of a line or right after an opening bracket is a binding (Fmt.v no_lone_eq);
+    /// = as the very first word is kept out as well
+    fn eq_allowed(&self) -> bool {
+        let mut depth = 0usize;
+        let mut words = 0usize;
+        let mut lone_name = false;
+        let mut after_open = false;
+        for t in self.toks.iter().rev() {
+            match t {
+                MTok::Space(_) => {}
+                MTok::Close(_) => {
+                    depth += 1;
+                }
+                MTok::Open(_) => {
+                    if depth == 0 {
+                        after_open = true;
+                        break;
+                    }
+                    depth -= 1;
+                    if depth == 0 {
+                        words += 1;
+                        lone_name = false;
+                    }
+                }
+                t => {
+                    if depth == 0 {
+                        words += 1;
+                        lone_name = matches!(t, MTok::Lower(_) | MTok::Upper(..));
+                    }
+                }
+            }
+        }
+        if words == 0 {
+            return after_open;
+        }
+        !(words == 1 && lone_name) && (after_open || self.first_is_glyph || words >= 2)
     }
     fn seq(&mut self, depth: usize, len: usize) {
         for _ in 0..len {
